@@ -30,6 +30,12 @@ const TEMPLATES: &[(&str, &str, &str)] = &[
     ("<p>a<br id=t>b</p><p>z</p>", "#t", "void"),
     ("<p><a id=t \u{30a2}\u{30a4}\u{30b3}\u{30f3}=1 href=x \u{8a9e}=y>l</a></p><p>z</p>", "#t", "data"),
     ("<p>q</p><plaintext id=t>rest <b> of </plaintext> doc", "#t", "raw"),
+    // self-closing syntax after an UNQUOTED last attribute: a re-serialised tag must keep the '/' out of that value
+    ("<p>a<br id=t class=c /><b>b</b></p><p>z</p>", "#t", "void"),
+    ("<p>a</p><svg><circle id=t r=5 fill=red /><g>x</g></svg><p>z</p>", "#t", "void"),
+    ("<p>a<img id=t alt='x' src=a.png/></p><p>z</p>", "#t", "void"),
+    ("<div id=t data-k=v />hello</div><p>z</p>", "#t", "data"),
+    ("<p>a</p><math><mspace id=t width=1em\t/><mi>x</mi></math><p>z</p>", "#t", "void"),
 ];
 
 const COMMENT_TEMPLATES: &[&str] = &["<p>a<!--c--></p><p>z</p>", "<svg><!--c--><g/></svg><p>z</p>", "<!--c--><title>t</title>", "<div><!-- x --><script>s</script></div>"];
